@@ -2,6 +2,7 @@ package vc
 
 import (
 	"bytes"
+	"sync/atomic"
 	"context"
 	"fmt"
 	"os"
@@ -19,10 +20,11 @@ const (
 	Refuted
 	Undecided
 	ToolError
+	Skipped
 )
 
 func (s Status) String() string {
-	return [...]string{"proved", "refuted", "undecided", "tool-error"}[s]
+	return [...]string{"proved", "refuted", "undecided", "tool-error", "skipped"}[s]
 }
 
 type Result struct {
@@ -41,6 +43,8 @@ type SolverCfg struct {
 	WorkDir    string
 	CrossCheck bool // re-check every unsat on the other solvers
 	KeepFiles  bool
+	StopAfter  int // quick tier: stop attempting obligations once this many could not be discharged (0 = never)
+	Known      func(name string) bool // obligations of listed known findings do not count towards StopAfter
 }
 
 type solverDef struct {
@@ -120,13 +124,22 @@ func Solve(obls []*Obligation, cfg SolverCfg) []*Result {
 	results := make([]*Result, len(obls))
 	var wg sync.WaitGroup
 	sem := make(chan struct{}, cfg.Workers)
+	var failed int32
 	for i, o := range obls {
 		wg.Add(1)
 		sem <- struct{}{}
 		go func(i int, o *Obligation) {
 			defer wg.Done()
 			defer func() { <-sem }()
+			if cfg.StopAfter > 0 && atomic.LoadInt32(&failed) >= int32(cfg.StopAfter) && !o.Negate {
+				// enough undischarged obligations to report: the rest is not attempted
+				results[i] = &Result{O: o, Status: Skipped}
+				return
+			}
 			results[i] = solveGuarded(o, i, cfg)
+			if results[i].Status != Proved && (cfg.Known == nil || !cfg.Known(o.Name)) {
+				atomic.AddInt32(&failed, 1)
+			}
 		}(i, o)
 	}
 	wg.Wait()
